@@ -25,13 +25,13 @@ pub fn sdk_revert_unvalidated(e: &Env, w0: Ghost<World>, context: &Context, all_
 
 /// revert site `SmartAccountError::ExternalVerificationFailed`
 #[verifier::external_body]
-pub fn sdk_revert_verification(e: &Env, signature_payload: &Hash<32>, signers: &SdkMap<Signer, Bytes>) -> !
-    requires verification_refused(e@, signature_payload@, signers@)
+pub fn sdk_revert_verification(e: &Env, w0: Ghost<World>, signature_payload: &Hash<32>, signers: &SdkMap<Signer, Bytes>) -> !
+    requires verification_refused(w0@, e@, signature_payload@, signers@)
 { panic!() }
 
 macro_rules! panic_with_error {
     ($e:expr, SmartAccountError::UnvalidatedContext, $ctx:expr, $all:expr) => { verus_exec_expr!{ sdk_revert_unvalidated(&*$e, Ghost(old($e)@), $ctx, $all) } };
-    ($e:expr, SmartAccountError::ExternalVerificationFailed, $payload:expr, $signers:expr) => { sdk_revert_verification(&*$e, $payload, $signers) };
+    ($e:expr, SmartAccountError::ExternalVerificationFailed, $payload:expr, $signers:expr) => { verus_exec_expr!{ sdk_revert_verification(&*$e, Ghost(old($e)@), $payload, $signers) } };
     ($e:expr, $err:expr $(, $rest:expr)*) => { sdk_panic_strict($err as u32) };
 }
 
@@ -70,10 +70,10 @@ pub open spec fn unvalidated_justified(w0: World, w: World, ctx: Context, all: S
 pub open spec fn verify_refusal(payload: Seq<u8>, verifier: Address, key: Bytes, sig: Bytes) -> Call {
     Call { callee: verifier, func: fn_verify(), args: seq![SV::Bytes(payload), key.sv(), sig.sv()], ret: SV::Bool(false), ok: true }
 }
-/// justification of `ExternalVerificationFailed`: the last external answer is the `false` of the verifier of one of the
-/// supplied (signer, signature) pairs, asked about the payload, the signer's key and that signature
-pub open spec fn verification_refused(w: World, payload: Seq<u8>, entries: Seq<(Signer, Bytes)>) -> bool {
-    exists|i: int| 0 <= i < entries.len() && w.calls.len() > 0 && match (#[trigger] entries[i]).0 {
+/// justification of `ExternalVerificationFailed`: the last external answer, given since entry (w0), is the `false` of the
+/// verifier of one of the supplied (signer, signature) pairs, asked about the payload, the signer's key and that signature
+pub open spec fn verification_refused(w0: World, w: World, payload: Seq<u8>, entries: Seq<(Signer, Bytes)>) -> bool {
+    exists|i: int| 0 <= i < entries.len() && w.calls.len() > w0.calls.len() && match (#[trigger] entries[i]).0 {
         Signer::External(v, k) => w.calls.last() == verify_refusal(payload, v, k, entries[i].1),
         Signer::Delegated(a) => false,
     }
